@@ -194,7 +194,9 @@ def make_objects(mk, cls, prefix: str, n: int, fields=("a", "b", "c"), extra=(),
             kw["t"] = (mk.int("%s%d.t0" % (prefix, i)), mk.int("%s%d.t1" % (prefix, i)))
         if "d" in extra:
             kw["d"] = {"k": mk.int("%s%d.dk" % (prefix, i))}
-        if "s" in extra:
+        if "sl" in extra:   # a list with symbolic membership (possibly empty): for truthiness of a collection
+            kw["s"] = mk.slist("%s%d.sl" % (prefix, i), [1, 2])
+        elif "s" in extra:
             kw["s"] = [mk.int("%s%d.s0" % (prefix, i)), mk.int("%s%d.s1" % (prefix, i))]
         kw["name"] = "%s%d" % (prefix, i)
         objs.append(cls(**kw))
@@ -216,7 +218,7 @@ def cond_vars(c) -> List[str]:
             opv(c[2]); opv(c[3])
         elif k in ("in", "contains"):
             opv(c[1]); opv(c[2])
-        elif k in ("flag", "m", "pf", "PC", "HT", "ff", "pf2", "PC2"):
+        elif k in ("flag", "m", "pf", "PC", "HT", "ff", "pf2", "PC2", "tr"):
             if c[1] not in out:
                 out.append(c[1])
         elif k == "big":
@@ -254,6 +256,8 @@ def extras_needed(c) -> set:
             opv(c[1]); opv(c[2])
         elif k == "flag":
             need.add("f")
+        elif k == "tr" and c[2] in ("sl", "t"):
+            need.add(c[2])
         elif k in ("and", "or", "&", "|"):
             for s in c[1:]:
                 rec(s)
@@ -355,6 +359,8 @@ def build(c, V):
         return contains(build_operand(c[1], V), build_operand(c[2], V))
     if k == "flag":
         return V[c[1]].f
+    if k == "tr":       # a non-boolean attribute standing in condition position: its Python truthiness is the meaning
+        return getattr(V[c[1]], "s" if c[2] == "sl" else c[2])
     if k == "m":
         return V[c[1]].m()
     if k == "big":
@@ -435,6 +441,11 @@ def holds(alg, c, env, pools=None):
         return alg.or_(*[alg.and_(p, alg.cmp("eq", e, iv)) for e, p in alg.members(cv)])
     if k == "flag":
         return alg.truth(env[c[1]].f)
+    if k == "tr":
+        val = getattr(env[c[1]], "s" if c[2] == "sl" else c[2])
+        if isinstance(val, (list, tuple)) or type(val).__name__ == "SList":
+            return alg.or_(*[p for _, p in alg.members(val)])
+        return alg.truth(val)
     if k == "m":
         return alg.cmp("lt", env[c[1]].b, env[c[1]].c)
     if k == "big":
@@ -494,6 +505,8 @@ def leaf_vocabulary(v="x", rich=True):
         L.append(["PC", v])
         L.append(["pf2", v, 1])
         L.append(["PC2", v, 0])
+        L.append(["tr", v, "a"])
+        L.append(["tr", v, "sl"])
     return L
 
 
